@@ -155,7 +155,13 @@ def cli_cases(ctx, rng):
              (good.encode(), ['-s', '1000000']), (good.encode(), ['-s', '20000', '-m', '16']), (bad.encode(), []), (bad.encode(), ['--lint']),
              (b'empty @is_you() { write("\xff\xfe"); }\n', []), (b'\xff\xfe\x00', []), (b'', []), (b'empty @is_you() {', []),
              ('empty @is_you() { write("h\u00e9llo \\u{1F30E}"); }\n'.encode('utf-8'), []), (gen.gen_program(ctx.seed, ['arrays', 'strings', 'calls', 'tt']).encode(), ['-m', '32']),
-             (genhist.gen_history(ctx.seed).encode(), ['--unchecked', '-s', '64'])]
+             (genhist.gen_history(ctx.seed).encode(), ['--unchecked', '-s', '64']),
+             # errors that only the code generator finds (after typechecking succeeded)
+             (b'int[] weights = [1, 2];\nint total = weights[0] + weights[1];\nempty @is_you() { write(total); }\n', []),
+             (b'int table[20000];\nempty @is_you() { table[0] = 1; write(table[0]); }\n', ['-m', '16']),
+             (b'empty f() { }\n', []), (b'empty @is_you(bool b) { }\n', []), (b'empty @is_you() { }\nempty @is_you(int a) { }\n', []),
+             (b'int @is_you() { return 1; }\n', []), (b'empty @is_you(string[] a) { }\n', []), (b'empty @is_you(const string[] a, int[] b) { }\n', []),
+             (b'int g = 1;\nint h = g + 1;\nempty @is_you() { write(h); }\n', []), (b'string s = "a";\nbyte c = s[0];\nempty @is_you() { write(c); }\n', [])]
     n = 0
     for k, (data, opts) in enumerate(cases):
         src = os.path.join(work, 'in%d.hid' % k)
